@@ -372,8 +372,7 @@ theorem sh_stepOwner {s s' : St} (hE : Excl s) (h : Sh s) (hs : stepOwner s = so
     apply sh_setOpc _ (sh_setCl i _ h fun u => ?_)
     · intro t e; split at e <;> simp at e
     · intro t e; split at e <;> simp at e
-    · have hc := (h u).cl i
-      exact ⟨by simp, by simp, hc.queue, hc.wait, hc.give⟩
+    · exact ⟨by simp, by simp, by simp, by simp, by simp⟩
   · rename_i i ho
     split at hs
     · injection hs with hs; subst hs
